@@ -359,6 +359,9 @@ def run(prog, rep):
     rule_shorthand(prog, rep)
     rule_emptyflag(prog, rep)
     rule_separators(prog, rep)
-    from .C09 import rule_blockgate
+    from .C09 import rule_blockgate, rule_escinv
     rule_blockgate(prog, rep)
+    # a string value must come back as the same value (and printing must not panic): the escape
+    # tables of quoted strings are decided by C09.ESCINV, shared here
+    rule_escinv(prog, rep)
     rep.note("round-trip equality, byte-identical re-serialization and the CST->AST conversion's field completeness (compiler-enforced struct expressions) are not decided")
